@@ -14,6 +14,12 @@
    a / n is the type's own truncating division, so a / n and a * (1 / n) differ ;
    (19 13 ty (d ..) (v ..) (rows cols data)) from_diagonal, euclidean_length (tensor, matrix column and
    row), the three from_numeric owned iterators, Trace::pi / Record::pi at Rat / Fp.
+   (19 14 ty n (data) (ddata) (xs) (dxs)) Trace<T> / Record<T> (one tape) as element types of
+   determinant / inverse (both routes), mean, variance, A*A, softmax, euclidean_length, f1_score:
+   (number derivative) of every scalar; Record answers the directional derivative sum_i grad_i * seed_i.
+   (19 15 ty n (data)) determinant / inverse (Matrix and Tensor routes, all entry points) at types whose
+   x / 0 panics (2 Wrapping<i64>, 4 i64; also 3 Whole, 0 1), singular inputs included.
+   (19 1 w 12|13 n): floats answer (bits), the IEEE-754 pattern named by Model/FloatConv.v.
    tag: 0 u8 1 i8 2 u16 3 i16 4 u32 5 i32 6 u64 7 i64 8 u128 9 i128 10 usize 11 isize 12 f32
    13 f64 ; w: 0 plain 1 Wrapping 2 Saturating ; ty: 0 Rat 1 Fp 2 Wrapping<i64>."""
 from tools import vlib, gen_arith
@@ -43,7 +49,12 @@ def extra(tier, seed, cov):
     if _GEN_FAILURE:
         return [("generated-equivalence", {"property": "C19", "kind": "proof layer: a definition regenerated from the Rust source "
                                            "no longer equals the hand-written model function", "repo": vlib.REPO, **_GEN_FAILURE})]
-    return []
+    # the translator's own tests (tools/test_gen_arith.py): the snippet table on every run (< 1 s),
+    # the differential self-test (generated Gallina evaluated by Coq vs the crate) in the thorough tier
+    from tools import test_gen_arith
+    res = test_gen_arith.extra_violations("C19", tier)
+    cov.setdefault("translator", {})["self_test"] = "fail" if res else ("table+differential ok" if tier == "thorough" else "table ok")
+    return res
 
 THEOREMS_FILE = "C19"
 BITS = {0: (8, False), 1: (8, True), 2: (16, False), 3: (16, True), 4: (32, False), 5: (32, True),
@@ -285,6 +296,60 @@ def gen(tier, rng):
         yield sx([19, 11, tag, rng.randrange(6), a, b])
     for tag in (12, 13):
         yield sx([19, 11, tag, 6, 0, 0])
+    # ==== second extension wave, kept LAST
+    # ---- Trace<T> / Record<T> as element types of determinant / inverse / mean / variance / A*A /
+    #      softmax / euclidean_length / f1_score (number and derivative components)
+    for rep in range(700 if quick else 9000):
+        ty = rng.randrange(2)
+        n = rng.choice([1, 2, 2, 3, 3])
+        k = rng.randrange(1, 6)
+        small = (lambda v: [v, 1]) if ty == 0 else (lambda v: v)
+        def seeds(m):
+            r = rng.random()
+            if r < 0.15:
+                return [small(0) for _ in range(m)]  # all constants
+            if r < 0.4:
+                e = [small(0) for _ in range(m)]
+                e[rng.randrange(m)] = small(1)      # one variable
+                return e
+            return values(ty, m, rng)
+        data = values(ty, n * n, rng)
+        if rng.random() < 0.15:                      # singular matrices: inverse absent
+            data = data[:n] * n
+        xs = values(ty, k, rng)
+        if rng.random() < 0.2:
+            xs[rng.randrange(k)] = xs[0]             # ties in softmax's max_by
+        yield sx([19, 14, ty, n, data, seeds(n * n), xs, seeds(k)])
+    # ---- determinant / inverse at element types whose x / 0 panics (Wrapping<i64>, i64), singular
+    #      matrices included: None, never a division (seed C19-v2)
+    for rep in range(600 if quick else 8000):
+        ty = rng.choice([2, 2, 4, 4, 3, 0, 1])
+        n = rng.choice([1, 2, 2, 3, 3])
+        if ty in (0, 1):
+            data = values(ty, n * n, rng)
+        else:
+            data = [rng.randrange(-3, 4) for _ in range(n * n)]
+            if ty == 2 and rng.random() < 0.3:
+                data = [value(2, rng) for _ in range(n * n)]
+        r = rng.random()
+        if r < 0.35 and n > 1:                       # singular: two equal rows / a zero row / rank one
+            kind = rng.randrange(3)
+            if kind == 0:
+                data[n:2 * n] = data[:n]
+            elif kind == 1:
+                z0 = [0, 1] if ty == 0 else 0
+                data[:n] = [z0] * n
+            else:
+                data = data[:n] * n
+        elif r < 0.45 and n == 2 and ty in (2, 3, 4):
+            a, b = rng.randrange(1, 4), rng.randrange(1, 4)
+            data = [a, b, 2 * a, 2 * b]              # determinant exactly 0
+        yield sx([19, 15, ty, n, data])
+    for ty in (2, 3, 4):
+        yield sx([19, 15, ty, 2, [3, 5, 6, 10]])
+        yield sx([19, 15, ty, 2, [2, 1, 1, 1]])      # determinant 1: an integer inverse exists
+        yield sx([19, 15, ty, 3, [1, 2, 3, 4, 5, 6, 7, 8, 9]])
+        yield sx([19, 15, ty, 1, [0]])
 
 
 def nontrivial(case, model_out):
